@@ -13,7 +13,7 @@ RULE = ("real readers (4 formats) on spec-written files whose video and telemetr
         "(top bits set), walking single bits, all-ones; KLM channel-select 0..3 with other bit-field bits random; "
         "a case = one scan line; all lines are checked by the Python oracle (independent bit extraction from the raw "
         "bytes), a subset is evaluated by the Coq model; non-trivial = distinct (format, line word pattern) with at "
-        "least 3 distinct sample values; plus one full-size pass per family (1300 / 4400 lines) compared as a whole array")
+        "least 3 distinct sample values; plus one full-size pass per family (2100 / 4400 lines) compared as a whole array")
 ASSUME = ["numpy >>, &, strided assignment, reshape and mean as modelled", "float64 holds 10-bit counts exactly"]
 TB = ["coqc 8.16.1 kernel", "harness/l1b.py spec writer + correspondence (in-Coq comparison: check_klm_counts, "
       "check_pod_counts, check_klm_tele, check_pod_tele)"]
@@ -169,7 +169,7 @@ def run(res, tier, seed):
     for fmt, sc in (("gac_klm", "noaa19"), ("gac_pod", "noaa12")):
         info = l1b.FMT[fmt]
         fam, W, NW = info["family"], info["width"], info["words"]
-        n = 1300 if tier == "quick" else 4400
+        n = 2100 if tier == "quick" else 4400   # more than 2048 lines and not a multiple of it
         rs = np.random.RandomState(rng.randrange(2 ** 31))
         words = rs.randint(0, 2 ** 32, size=(n, NW), dtype=np.uint64).astype(np.uint32)
         sws = rs.randint(0, 2, size=n)
